@@ -152,6 +152,37 @@ def judge_mendel(sim, trace, text, opts, counters):
     return viol
 
 
+def judge_recomb_list(trace, path, counters):
+    """Every line of --recombination-list must report, for both parents, the transmitted haplotypes that the solver's
+    transmission vector gives at the two positions."""
+    viol = []
+    if not os.path.exists(path):
+        return viol
+    insts = [i for i in trace["instances"] if "transmission" in i and i["trios"]]
+    with open(path) as fh:
+        lines = [l.rstrip("\n") for l in fh][1:]
+    for l in lines:
+        f = l.split(" ")
+        child, chrom, p1, p2 = f[0], f[1], int(f[2]) - 1, int(f[3]) - 1
+        hf1, hf2, hm1, hm2 = (int(x) for x in f[4:8])
+        inst = [i for i in insts if i["chromosome"] == chrom and child in [t[2] for t in i["trios"]]]
+        if not inst:
+            continue
+        i = inst[-1]
+        tri = [t[2] for t in i["trios"]].index(child)
+        pos = i["positions"]
+        if p1 not in pos or p2 not in pos:
+            viol.append({"mech": "recomb-list-unknown-position", "msg": "recombination listed at %s:%d-%d, not solver columns" % (chrom, p1 + 1, p2 + 1)})
+            continue
+        t1 = (i["transmission"][pos.index(p1)] // (4**tri)) % 4
+        t2 = (i["transmission"][pos.index(p2)] // (4**tri)) % 4
+        counters["recomb_list_lines_checked"] = counters.get("recomb_list_lines_checked", 0) + 1
+        if (hf1, hf2, hm1, hm2) != (t1 % 2, t2 % 2, t1 // 2, t2 // 2):
+            viol.append({"mech": "recomb-list-transmission", "msg": "recombination list says child %s %s:%d-%d father %d->%d mother %d->%d; the solver's transmission values there are %d -> %d (father %d->%d, mother %d->%d)"
+                         % (child, chrom, p1 + 1, p2 + 1, hf1, hf2, hm1, hm2, t1, t2, t1 % 2, t2 % 2, t1 // 2, t2 // 2)})
+    return viol
+
+
 def run_one(rng, counters):
     tmp = tempfile.mkdtemp(prefix="c05-", dir=os.environ.get("WV_SCRATCH"))
     try:
@@ -169,6 +200,8 @@ def run_one(rng, counters):
                     fh.write("%d %.4f %.6f\n" % (pos, rng.random() * 5, cm))
             ro["genmap"] = gm
         out = os.path.join(tmp, "out.vcf")
+        rl = os.path.join(tmp, "recomb.tsv")
+        ro["recombination_list_filename"] = rl
         status, trace, msg = pipeline.run_phase(sim, out, **ro)
         desc = {"params": p, "options": opts}
         if status == "cle" and "No reads could be retrieved" in msg:
@@ -178,6 +211,7 @@ def run_one(rng, counters):
         counters["runs_ok"] = counters.get("runs_ok", 0) + 1
         before = (counters.get("transmission_checks", 0), counters.get("excluded_variants_checked", 0), counters.get("readfree_rule_checked", 0))
         viol = judge_mendel(sim, trace, open(out).read(), opts, counters)
+        viol += judge_recomb_list(trace, rl, counters)
         viol += pipeline.judge_witness(trace, counters, brute_limit=9)
         after = (counters.get("transmission_checks", 0), counters.get("excluded_variants_checked", 0), counters.get("readfree_rule_checked", 0))
         return viol, after != before, desc
